@@ -62,6 +62,12 @@ def emit_guards(w, src, must):
         and not re.search(r"let content_len = headers", d)
     w("(* the stream decoder slices the body with the length its first pass saved, not with a value decoded again from the headers *)")
     w("Definition stream_body_len_saved : bool := %s." % ("true" if saved else "false"))
+    dl = src("crates/sip-ua/src/dialog/layer.rs")
+    gt = dl[dl.index("Ordering::Greater =>"):]
+    gt = gt[:gt.index("backlog.insert(")]
+    guard = bool(re.search(r"if dialog_entry\.backlog\.contains_key\(&request_cseq\)\s*\{\s*return;\s*\}", gt))
+    w("(* DialogLayer::receive does not overwrite a parked request with another one carrying the same CSeq (sip-ua/src/dialog/layer.rs) *)")
+    w("Definition dlg_backlog_no_overwrite : bool := %s." % ("true" if guard else "false"))
     w("")
 
 
